@@ -110,6 +110,55 @@ class Ctx:
         return thorough if (self.thorough or self.escalated) else quick
 
 
+class Hang(Exception):
+    pass
+
+
+def with_timeout(fn, seconds, *a, **kw):
+    """Run fn in a daemon thread; raise Hang if it does not come back in time (the thread is abandoned)."""
+    import threading
+    box = {}
+
+    def target():
+        try:
+            box["r"] = fn(*a, **kw)
+        except BaseException as e:  # noqa
+            box["e"] = e
+    t = threading.Thread(target=target, daemon=True)
+    t.start()
+    t.join(seconds)
+    if t.is_alive():
+        raise Hang("no result after %ss" % seconds)
+    if "e" in box:
+        raise box["e"]
+    return box.get("r")
+
+
+def guarded_map(fn, items, stall=30):
+    """[(item, result)] for fn over items, computed in one daemon thread under a stall watchdog: if a single
+    item takes longer than `stall` seconds its result is a Hang instance and the remaining items are skipped."""
+    import threading
+    import time as _t
+    res, state = [], {"i": 0, "t": _t.time(), "done": False}
+
+    def target():
+        for i, it in enumerate(items):
+            state["i"], state["t"] = i, _t.time()
+            try:
+                res.append((it, fn(it)))
+            except BaseException as e:  # noqa
+                res.append((it, e))
+        state["done"] = True
+    th = threading.Thread(target=target, daemon=True)
+    th.start()
+    while not state["done"]:
+        th.join(0.25)
+        if not state["done"] and _t.time() - state["t"] > stall:
+            res.append((items[state["i"]], Hang("no result after %ss" % stall)))
+            break
+    return list(res)
+
+
 # ----------------------------------------------------------------------------- build / audit
 
 def sh(cmd, cwd=None, timeout=3600, env=None):
